@@ -28,6 +28,17 @@ def gen_knobs(rng, tier="quick", line=True, max_steps=60000):
         k["hot"] = {f: rng.choice([0.15, 0.4]) for f in rng.sample(HOT, rng.randint(1, 2))}
     if rng.random() < 0.3:
         k["bias"] = {rng.choice(ROLES): rng.choice([0.1, 0.1, 5.0])}
+    r = rng.random()
+    if r < 0.15:
+        k["pct"] = rng.choice([1, 2, 3])      # strict random priorities with d change points (PCT)
+    elif r < 0.3:
+        # one pre-emption point placed at the k-th operation of one role (sweep over k across runs)
+        k["pct_at"] = {"role": rng.choice(["main", "main", "manager", "feeder", "worker-main", "user1"]),
+                       "op": rng.randint(1, 250)}
+    elif r < 0.42 and line:
+        # one delay placed at the n-th executed line of one protocol function (sweep over n across runs):
+        # the delayed thread resumes only when nobody else can run
+        k["line_at"] = {"func": rng.choice(HOT), "n": rng.randint(1, 60)}
     return k
 
 
@@ -67,7 +78,11 @@ def focus_hot(rng, knobs, threads, p=0.35):
                     feats.add("death")
     cands = sorted(set(f for k in feats for f in RARE_PATHS[k]))
     if cands:
-        knobs["hot"] = {f: rng.choice([0.2, 0.5]) for f in rng.sample(cands, min(len(cands), rng.randint(1, 2)))}
+        if rng.random() < 0.4 and not knobs.get("pct") and not knobs.get("pct_at"):
+            knobs.pop("hot", None)
+            knobs["line_at"] = {"func": rng.choice(cands), "n": rng.randint(1, 50)}
+        else:
+            knobs["hot"] = {f: rng.choice([0.2, 0.5]) for f in rng.sample(cands, min(len(cands), rng.randint(1, 2)))}
     return knobs
 
 
